@@ -128,6 +128,14 @@ class SG:
         if k < 6:
             op = c.choice(["+", "-", "*", "/", "%", "<<", ">>", "&", "|", "^", "&&", "||", "==", "!=", "<", ">", "<=", ">="])
             lv = M.BIN[op]
+            if c.chance(0.25):
+                # the same operator nested on the right (parentheses required:
+                # 'a - (b - c)', 'a + (b + c)') or on the left (none needed): what a
+                # generator that "knows" an operator is associative would regroup
+                inner = ("%s %s %s" % (W(e(), lv), op, W(e(), lv + 1)), lv)
+                if c.chance(0.6):
+                    return ("%s %s %s" % (W(e(), lv), op, W(inner, lv + 1)), lv)
+                return ("%s %s %s" % (W(inner, lv), op, W(e(), lv + 1)), lv)
             return ("%s %s %s" % (W(e(), lv), op, W(e(), lv + 1)), lv)
         if k == 6:
             return (c.choice(["-", "+", "~", "!"]) + " " + W(e(), M.L_CAST), M.L_UNARY)
@@ -185,6 +193,9 @@ class SG:
         e = lambda: self.e_dbl(d - 1)  # noqa: E731
         if k <= 1:
             op = c.choice("+-*/")
+            if c.chance(0.3):
+                inner = ("%s %s %s" % (W(e(), M.BIN[op]), op, W(e(), M.BIN[op] + 1)), M.BIN[op])
+                return ("%s %s %s" % (W(e(), M.BIN[op]), op, W(inner, M.BIN[op] + 1)), M.BIN[op])
             return ("%s %s %s" % (W(e(), M.BIN[op]), op, W(e(), M.BIN[op] + 1)), M.BIN[op])
         if k == 2:
             return ("- " + W(e(), M.L_CAST), M.L_UNARY)
